@@ -45,10 +45,10 @@ func (p Path) Matches(base string) bool {
 	baseHasTrailingSlash := strings.HasSuffix(base, "/")
 	p = Path(path.Clean(string(p)))
 	base = path.Clean(base)
-	if pHasTrailingSlash {
+	if pHasTrailingSlash && p != "/" {
 		p += "/"
 	}
-	if baseHasTrailingSlash {
+	if baseHasTrailingSlash && base != "/" {
 		base += "/"
 	}
 
